@@ -573,6 +573,14 @@ func init() {
 	reg("valid/bip68-in-block-parent-time-lock-0", "C04", valid, func(c *ctx) *refchain.Block { return bip68InBlock(c, 1<<22, 2) })
 	reg("valid/bip68-in-block-parent-disabled", "C04", valid, func(c *ctx) *refchain.Block { return bip68InBlock(c, 1<<31|50, 2) })
 	reg("valid/bip68-in-block-parent-version-1", "C04", valid, func(c *ctx) *refchain.Block { return bip68InBlock(c, 50, 1) })
+	// time-based locks of 128 units (65,536 s) and more: the unit count is 16 bits wide, the seconds are not
+	reg("bip68/time-lock-128-units-on-young-coin", "C04", []string{"bad-txns-nonfinal(BIP68)"}, func(c *ctx) *refchain.Block { return bip68Units(c, 128) })
+	reg("bip68/time-lock-256-units-on-young-coin", "C04", []string{"bad-txns-nonfinal(BIP68)"}, func(c *ctx) *refchain.Block { return bip68Units(c, 256) })
+	reg("bip68/time-lock-0x8000-units-on-young-coin", "C04", []string{"bad-txns-nonfinal(BIP68)"}, func(c *ctx) *refchain.Block { return bip68Units(c, 0x8000) })
+	reg("bip68/time-lock-0xffff-units-on-young-coin", "C04", []string{"bad-txns-nonfinal(BIP68)"}, func(c *ctx) *refchain.Block { return bip68Units(c, 0xffff) })
+	reg("bip68/height-lock-0xffff-on-young-coin", "C04", []string{"bad-txns-nonfinal(BIP68)"}, func(c *ctx) *refchain.Block { return bip68Units(c, -0xffff) })
+	reg("bip68/old-coin-time-lock-unsatisfied", "C04", []string{"bad-txns-nonfinal(BIP68)"}, func(c *ctx) *refchain.Block { return bip68Old(c, 1) })
+	reg("valid/bip68-old-coin-time-lock-exact", "C04", valid, func(c *ctx) *refchain.Block { return bip68Old(c, 0) })
 	reg("valid/bip68-ignored-for-version-1", "C04", valid, func(c *ctx) *refchain.Block {
 		ops, cs := c.take(1)
 		if ops == nil {
@@ -927,6 +935,59 @@ func bip68(c *ctx, timeBased bool, excess uint32) *refchain.Block {
 		seq = uint32(n) + excess | 1<<22
 	}
 	t := c.g.Spend([]refchain.OutPoint{op}, []refchain.Coin{coin}, []refchain.TxOut{c.g.OutTrue(coin.Value - 1)}, 2, 0, []uint32{seq}, -1)
+	return c.blockWith([]*refchain.Tx{t}, 1, chainsim.BlockSpec{})
+}
+
+// bip68Units: a coin at most 20 blocks old spent with a relative lock of `units` (time-based; negative = height-based)
+// that is far from satisfied.
+func bip68Units(c *ctx, units int) *refchain.Block {
+	if !c.csv {
+		return nil
+	}
+	for i, a := range c.avail {
+		cn := c.view[a]
+		if d := c.height - cn.Height; d >= 1 && d <= 20 && !cn.Coinbase {
+			c.avail[i] = c.avail[len(c.avail)-1]
+			c.avail = c.avail[:len(c.avail)-1]
+			seq := uint32(units) | 1<<22
+			if units < 0 {
+				seq = uint32(-units)
+			}
+			t := c.g.Spend([]refchain.OutPoint{a}, []refchain.Coin{cn}, []refchain.TxOut{c.g.OutTrue(cn.Value - 1)}, 2, 0, []uint32{seq}, -1)
+			return c.blockWith([]*refchain.Tx{t}, 1, chainsim.BlockSpec{})
+		}
+	}
+	return nil
+}
+
+// bip68Old: the oldest spendable coin (a time-based lock of 128 units or more can be satisfied only by a coin more than
+// 65,536 s of median time old) with the lock exactly satisfied / one unit short.
+func bip68Old(c *ctx, excess uint32) *refchain.Block {
+	if !c.csv {
+		return nil
+	}
+	best := -1
+	for i, a := range c.avail {
+		if best < 0 || c.view[a].Height < c.view[c.avail[best]].Height {
+			best = i
+		}
+	}
+	if best < 0 {
+		return nil
+	}
+	op := c.avail[best]
+	coin := c.view[op]
+	var anc uint32
+	if coin.Height > 0 {
+		anc = coin.Height - 1
+	}
+	n := (int64(c.tip.MTP()) - int64(c.tip.Ancestor(anc).MTP())) / 512
+	if n < 128 || n > 0xfffe {
+		return nil // not old enough for the wide range (or too old for the field)
+	}
+	c.avail[best] = c.avail[len(c.avail)-1]
+	c.avail = c.avail[:len(c.avail)-1]
+	t := c.g.Spend([]refchain.OutPoint{op}, []refchain.Coin{coin}, []refchain.TxOut{c.g.OutTrue(coin.Value - 1)}, 2, 0, []uint32{uint32(n) + excess | 1<<22}, -1)
 	return c.blockWith([]*refchain.Tx{t}, 1, chainsim.BlockSpec{})
 }
 
